@@ -63,7 +63,7 @@ CLAIMED.update({
             "§3 C05"),
     "C15": ("exploration",
             "bounded-exhaustive enumeration of structured families n<=5 (quick) / n<=7 (thorough): QR on integer/graded/all non-singular 3x3 matrices; symmetric M = Q diag(lambda) Q^T for every member of a finite orthogonal family x eigenvalue ratio patterns x sign patterns, against long-double cyclic Jacobi; every Eigensystem/Eigenvectors call in its own child process with a 2 s limit",
-            "QR: Q^T Q = I and QR = M within 16 n^2 u, R exactly zero below the diagonal, on every enumerated non-singular matrix. Eigenvalues: spectrum equals the Jacobi reference as a multiset, sums to the trace, multiplies to the determinant. Eigensystem/Eigenvectors: must terminate (time-bounded child), return n unit vectors, each an eigenpair within 1e-8*|M|, each reference eigenvalue represented once - including diagonal and block-diagonal matrices and eigenvectors with zero components, which is where the pinned code aborted or looped. The argument matrix must come back bit-identical; Eigenvectors() must equal Eigensystem().second up to signs; call histories over QR/Inverse/Eigenvalues/Eigensystem letters on four matrices. Every spectrum also in ascending order and with neighbours exchanged; rotations by 1e-7..3e-10; QR on geometric singular values up to cond 1e6.",
+            "QR: Q^T Q = I and QR = M within 16 n^2 u, R exactly zero below the diagonal, on every enumerated non-singular matrix. Eigenvalues: spectrum equals the Jacobi reference as a multiset, sums to the trace, multiplies to the determinant. Eigensystem/Eigenvectors: must terminate (time-bounded child), return n unit vectors, each an eigenpair within 1e-8*|M|, each reference eigenvalue represented once - including diagonal and block-diagonal matrices and eigenvectors with zero components, which is where the pinned code aborted or looped. The argument matrix must come back bit-identical; Eigenvectors() must equal Eigensystem().second up to signs; call histories over QR/Inverse/Eigenvalues/Eigensystem letters on four matrices. Every spectrum also in ascending order and with neighbours exchanged; rotations by 1e-7..3e-10; QR on geometric singular values up to cond 1e6. The dense integer QR family is repeated at the exact scalings 2^-60, 2^-200 and 2^60 (the defining equations are scale free).",
             "Orthogonal family and ratio patterns are finite lists (signed permutations, Givens products with angles pi/6, pi/4, pi/3, 1, rotations in the planes (i,i+2) giving checkerboard matrices, Householder reflectors of integer vectors; ratios 0.1..0.8). Overall magnitudes 1, 40, 1e-7, 1e7 (thorough also 1e-30, 1e30, 3e-4); QR families include nearly triangular matrices with sub-diagonal parts of relative size 1e-6..1e-15.",
             "§3 C15"),
 })
@@ -116,7 +116,7 @@ CLAIMED.update({
             "§3 C12"),
     "C13": ("exploration",
             "bounded-exhaustive enumeration over configurations: 6 method names x 19 smooth integrands x 4 intervals x {default, explicit} method_parameter in both orientations and with equal limits; Integrate_2D/3D for every method x every orientation of every axis with different factors and disjoint ranges per axis; spherical overload on angular sub-ranges",
-            "The repository's multi-dimensional tests use integrands symmetric under exchange of variables on identical limits, so a swapped argument or limit cannot show; here every axis has its own range and its own factor, every argument handed to the integrand is recorded and must lie in the range of its own pair of limits, and the result must be the signed product of the 1D integrals. 1D: every method within its stated accuracy relative to kappa = int|f|/|int f|, reversed limits the bitwise negation, equal limits exactly 0, abscissae inside the interval. Spherical overload: norm in the shell, z/r in the cos(theta) range, azimuth in the phi range, result = solid angle x radial integral. Intervals narrower than 1e-12 ([1,1+2^-41], [0,1e-13], [-3e-14,2e-14]) against a 24-point long-double rule; call histories: all sequences (depth 3, thorough 4) of 14 request letters (every method, explicit node counts, 2D/3D nested requests) give identical bits per letter, explicit Gauss-Legendre_2 node counts equal the textbook n-point rule. Explicit parameters 1, 2, 7 for the four methods that take none; the spherical overload also with defaulted angles.",
+            "The repository's multi-dimensional tests use integrands symmetric under exchange of variables on identical limits, so a swapped argument or limit cannot show; here every axis has its own range and its own factor, every argument handed to the integrand is recorded and must lie in the range of its own pair of limits, and the result must be the signed product of the 1D integrals. 1D: every method within its stated accuracy relative to kappa = int|f|/|int f|, reversed limits the bitwise negation, equal limits exactly 0, abscissae inside the interval. Spherical overload: norm in the shell, z/r in the cos(theta) range, azimuth in the phi range, result = solid angle x radial integral. Intervals narrower than 1e-12 ([1,1+2^-41], [0,1e-13], [-3e-14,2e-14]) against a 24-point long-double rule; call histories: all sequences (depth 3, thorough 4) of 14 request letters (every method, explicit node counts, 2D/3D nested requests) give identical bits per letter, explicit Gauss-Legendre_2 node counts equal the textbook n-point rule. Explicit parameters 1, 2, 7 for the four methods that take none; the spherical overload also with defaulted angles. The defaulted-angle forms of the spherical overload are also run with the direction-dependent integrand cos^2(theta) g(r) (exact value known).",
             "Integrand families are finite lists (damped cosines up to two periods, Lorentzian, 1/(x+s), Gaussians); 3D Trapezoidal uses factors linear in y and z (the boost rule would otherwise need 7e10 evaluations). One integrand on which the trapezoidal rule misses 1e-6 by 6 % is recorded in KNOWN_FINDINGS.txt.",
             "§3 C13"),
 })
